@@ -471,17 +471,32 @@ func restCase() {
 		// other counters: value cells of the well-formed linked records of other names
 		var changed []string
 		nch := 0
+		still := map[string]bool{}
+		for _, r := range linked(after, H) {
+			still[r.name+"@"+strconv.Itoa(int(r.off))] = true
+		}
 		for _, r := range before {
 			if r.name == o.name || int(r.off)+8 > len(after) {
 				continue
 			}
 			v := binary.LittleEndian.Uint64(after[r.off:])
-			if v != r.val {
-				changed = append(changed, HS(r.name), U(uint64(r.off)), U(uint64(len(r.name))), U(r.val), U(v))
+			switch {
+			case v != r.val:
+				changed = append(changed, "value", HS(r.name), U(uint64(r.off)), U(uint64(len(r.name))), U(r.val), U(v))
+				nch++
+			case !still[r.name+"@"+strconv.Itoa(int(r.off))]:
+				// same value but no longer reachable as a well-formed record of its bucket
+				changed = append(changed, "lost", HS(r.name), U(uint64(r.off)), U(uint64(len(r.name))), U(r.val), U(v))
 				nch++
 			}
 		}
-		opsTok = append(opsTok, I(int64(nch)))
+		maxEnd := uint64(0)
+		for _, r := range before {
+			if e := uint64(r.off) + 16 + uint64(len(r.name)); e > maxEnd {
+				maxEnd = e
+			}
+		}
+		opsTok = append(opsTok, U(maxEnd), I(int64(nch)))
 		opsTok = append(opsTok, changed...)
 		cur = after
 		if status != "ok" {
